@@ -282,5 +282,5 @@ func isIndefiniteTermination(ber []byte, offset int) (bool, error) {
 		return false, errors.New("ber2der: Invalid BER format")
 	}
 
-	return bytes.Index(ber[offset:], []byte{0x0, 0x0}) == 0, nil
+	return bytes.HasPrefix(ber[offset:], []byte{0x0, 0x0}), nil
 }
